@@ -448,6 +448,9 @@ impl<C: Suite> Sim<C> {
     }
 
     fn rng(&self, node: usize, inst: u32, site: &str) -> SimRng {
+        // random-source fault "cloned generator state" (two machines restored from one snapshot): a node listed in
+        // extra.rng_alias draws exactly what the node it is aliased to draws
+        let node = self.scen.extra.get("rng_alias").and_then(|m| m.get(node.to_string())).and_then(|v| v.as_u64()).map(|v| v as usize).unwrap_or(node);
         SimRng::good(stream(self.scen.seed, self.scen.run, &format!("node{node}/inst{inst}/{site}")))
     }
 
